@@ -172,6 +172,12 @@ func regProp(id, level, rule string, verdict []string, which regWhich, nontrivia
 		config:  func(r *Rng, tier string) Config { return baseConfig(r, "size-adversarial", tier) },
 		profile: func(r *Rng, cfg Config) *Profile {
 			p := sizeAdversarialProfile(r, cfg)
+			if r.Sub("nested-mix").Chance(0.3) {
+				// nesting-centred histories (records of one composite type side by side, children mutated through
+				// handles after reloads): the register-level oracles see the layouts those histories produce
+				p = nestedProfile(r, cfg)
+				p.W["a.oob"], p.W["dispose"] = 1, 1
+			}
 			if id == "C09" {
 				// some commits meet a failing ledger write or delete on their first attempt and are retried: a
 				// deletion forgotten after a rejected delete leaves a register nobody references
@@ -193,6 +199,12 @@ func regProp(id, level, rule string, verdict []string, which regWhich, nontrivia
 			if v := w.regCheck(which); v != nil {
 				return v
 			}
+			if which.structure {
+				// model-free: inside the library, access by position / key and sequential traversal agree
+				if v := w.accessTraversal(); v != nil {
+					return v
+				}
+			}
 			// keep the model in step with the library; divergences here are cut, not verdicts
 			return w.DeepLive(cmpOpts{})
 		},
@@ -207,7 +219,7 @@ func init() {
 		Props["C07"].Directed = append(Props["C07"].Directed, directedManyChildMaps)
 	}()
 	regProp("C05", "exploration",
-		"size-adversarial histories (boundary-biased element sizes, grow/shrink at both ends and in the middle, nested and large values, collision-prone digesters) at swarm slab sizes; after every stride the view a commit would leave is parsed by the independent register parser and checked for size band, per-element limits, child headers, sibling links and digest order; non-trivial = a tree of height >= 2 with >= 3 slabs was checked and both insertions and removals happened; distinct by trace hash",
+		"size-adversarial histories (boundary-biased element sizes, grow/shrink at both ends and in the middle, nested and large values, collision-prone digesters) at swarm slab sizes; after every stride the view a commit would leave is parsed by the independent register parser and checked for size band, per-element limits, child headers, sibling links and digest order, and - model-free, on the live containers - every element a traversal yields must be what the lookup by its position / key returns; non-trivial = a tree of height >= 2 with >= 3 slabs was checked and both insertions and removals happened; distinct by trace hash",
 		[]string{"struct.", "reg.parse", "witness.verify"},
 		regWhich{structure: true, witness: true},
 		func(w *World, run *Stats, levels, slabs int) bool {
